@@ -215,7 +215,7 @@ pub fn run(args: &Args) -> i32 {
         }
     }
     for (name, c) in [("i64_max", i64::MAX as i128), ("i64_min", i64::MIN as i128), ("u64_max", u64::MAX as i128), ("i64_max_x2", 2 * (i64::MAX as i128))] {
-        let lw: i128 = if thorough { 1 << 28 } else { 1 << 23 };
+        let lw: i128 = if thorough { 1 << 28 } else if args.digest_mode { 1 << 20 } else { 1 << 23 };
         let t = sweep_range(&format!("limit_{name}"), c - lw, c + lw, 16, &rec, &ltts);
         nwin += t.evals;
         total = total.merge(t);
@@ -230,7 +230,7 @@ pub fn run(args: &Args) -> i32 {
         sub.insert("windows_around_pow2_and_integer_limits".into(), json!({"windows": 254 + 4, "evaluations": nwin}));
     }
     // whole seconds at machine-integer and decimal thresholds: n = s x 1e9 - w3 ..= s x 1e9 + w3 for s = +-2^k, +-10^k
-    {
+    if !args.digest_mode {
         let w3: i128 = if thorough { 1 << 12 } else { 1 << 9 };
         let mut secs: Vec<i128> = vec![];
         for k in 0..70u32 {
@@ -257,7 +257,7 @@ pub fn run(args: &Args) -> i32 {
     {
         let lo = MIN_UNIX_TIME as i128 * G;
         let hi = (MAX_UNIX_TIME as i128 + 1) * G;
-        let points: i128 = if thorough { 50_000_000 } else { 2_000_000 };
+        let points: i128 = if thorough { 50_000_000 } else if args.digest_mode { 100_000 } else { 2_000_000 };
         let step = (hi - lo) / points + 123_456_791;
         let chunks: Vec<i128> = (0..1024).collect();
         let t = chunks
